@@ -7,7 +7,10 @@
    [dec] is an exact decimal (sign, coefficient, exponent) - what Decimal(x).as_tuple() reports
    for an int, float, numeric str or Decimal x; strings are lists of code points.
    The predicates [represents], [is_digit], [dval], [fitsb], [closeb], [named_type] are the
-   specification (Spec/Conversion.v).  [Ok r] = returned r, [Err e] = raised e. *)
+   specification (Spec/Conversion.v).  [Ok r] = returned r, [Err e] = raised e.
+   A str argument of digit_string (read by int(), not as a decimal), None / bool / nan / inf / Fraction
+   arguments, negative digit counts of decimal_places and the CONVERSION entries on values are the
+   companion file Props/C16b.v. *)
 From Coq Require Import ZArith NArith List Bool.
 Import ListNotations.
 Require Import SR.Base.Res SR.Spec.Conversion SR.Model.Conversion SR.Proofs.ConversionP.
@@ -56,8 +59,11 @@ Theorem C16_places_outside : forall (d : Z) (x : dec),
 Proof. exact decimal_places_err. Qed.
 Print Assumptions C16_places_outside.
 
-(* CONVERSION: every key of the schema vocabulary is present and yields a value of the named
-   type, for an argument of any type (key 0 = None returns the argument itself). *)
+(* CONVERSION, the TABLE: every key of the schema vocabulary is present and bound to the constructor
+   of the named type (key 0 = None to the identity).  [conversion_type] works on type CODES: it says
+   which type a returned value has, not that the call returns - int(None), int('1.5'), Decimal('x')
+   raise.  The statement about argument VALUES (returns => named type, and exactly when it raises
+   what) is C16_conversion_value_types in Props/C16b.v. *)
 Theorem C16_conversion_types : forall key arg : Z,
   In key vocabulary -> conversion_type key arg = Ok (named_type key arg).
 Proof. exact conversion_named. Qed.
